@@ -126,9 +126,11 @@ class Client(base_client.BaseClient):
             self._trigger_event('disconnect',
                                 reason or self.reason.CLIENT_DISCONNECT,
                                 run_async=False)
-            if self.current_transport == 'websocket':
+            if self.current_transport == 'websocket' and self.ws:
                 self.ws.close()
-            if not abort:
+            if not abort and self.read_loop_task:
+                # the task does not exist yet when called from the connect
+                # handler
                 self.read_loop_task.join()
             self.state = 'disconnected'
             try:
@@ -216,6 +218,9 @@ class Client(base_client.BaseClient):
         self.state = 'connected'
         base_client.connected_clients.append(self)
         self._trigger_event('connect', run_async=False)
+        if self.state != 'connected':
+            # the application disconnected from the connect handler
+            return
 
         for pkt in p.packets[1:]:
             self._receive_packet(pkt)
@@ -388,6 +393,10 @@ class Client(base_client.BaseClient):
             self.state = 'connected'
             base_client.connected_clients.append(self)
             self._trigger_event('connect', run_async=False)
+            if self.state != 'connected':
+                # the application disconnected from the connect handler
+                ws.close()
+                return True
         self.ws = ws
         self.ws.settimeout(self.ping_interval + self.ping_timeout)
 
